@@ -33,7 +33,7 @@ fn biased_u128() -> BoxedStrategy<u128> {
         3 => any::<u128>(),
         3 => any::<u64>().prop_map(|x| x as u128),
         3 => (any::<u64>(), 0u32..64).prop_map(|(x, s)| (x as u128) << s),
-        2 => (1u128..100000),
+        2 => 1u128..100000,
     ]
     .boxed()
 }
